@@ -78,7 +78,7 @@ class C05(Campaign):
             c = rnd.choice(cands)
             sc["beh"].setdefault(f"{name}/{c}", []).insert(
                 0, {"ep": rnd.randrange(1, n), "j": 0, "dp": 0,
-                    "raise": rnd.choice(["SimFault", "SimLookup", "SimBaseFault"])})
+                    "raise": rnd.choice(["SimFault", "SimLookup", "SimBaseFault", "SimRuntime", "SimAttr"])})
         # the async rendering
         senders = [c.split("/", 1)[1] for c, rules in sc["beh"].items() if any(r.get("sends") for r in rules)]
         mode = rnd.choice(["all", "one", "mixed", "mixed", "guards", "actions"])
